@@ -78,8 +78,15 @@ C07Resp ==
           /\ Len(Obs.wire) = RespVisits
        \/ /\ Obs.status = "failed" /\ RespVisits > Budget /\ Len(Obs.wire) = Budget /\ WirePresent <= Budget
        \/ /\ Obs.status = "failed" /\ RespLoadsNeeded > Budget /\ WirePresent = Budget
-C07OK == ~Obs.hang /\ IF OnRequestor THEN C07Req ELSE C07Resp
-JudgeBudget == PrintT(ToJson([id |-> Case.id, c07 |-> C07OK]))
+\* C02's recorded finding (the skip count is counted in the requestor's loaded blocks and applied to the responder's visits): when
+\* the two differ the exchange loses blocks whatever the budget is, so the budget statement is not judged on such a case
+FirstMiss == CHOOSE x \in LocalMisses : \A y \in LocalMisses : x <= y
+SkipMismatch == /\ LocalMisses # {}
+                /\ LET loadedLocally == { i \in 1..(FirstMiss - 1) : LocalVisit(i) }
+                       skipped == { RespReached[k] : k \in 1..(IF RefSkip < Len(RespReached) THEN RefSkip ELSE Len(RespReached)) }
+                   IN skipped # loadedLocally
+C07OK == ~Obs.hang /\ (SkipMismatch \/ IF OnRequestor THEN C07Req ELSE C07Resp)
+JudgeBudget == PrintT(ToJson([id |-> Case.id, c07 |-> C07OK, na07 |-> SkipMismatch]))
 
 \* ---------------------------------------------------------------- C01: soundness under any responder
 Labels == { cid[i] : i \in V }
